@@ -232,37 +232,56 @@ def targets(ctx):
         found = fresh_clauses(case["fresh"])
         return Eval([Failure(cl, f"fresh|{cl}|{case['fresh']}", d) for cl, d in found], nontrivial=True, labels=["fresh"])
 
-    # nested lazy assignment
+    # nested lazy assignment: values written through lazily created sub-messages
+    LAZY = {
+        # name: (top message, how to mutate, expected tree as the reference must see it, field number of the sub-message)
+        "scalar_depth1_default": ("Rec", lambda m: setattr(m.rec, "i32", 0), {"rec": {}}, 1),
+        "scalar_depth1_value": ("Rec", lambda m: setattr(m.rec, "i32", 7), {"rec": {"i32": 7}}, 1),
+        "scalar_depth2_default": ("Rec", lambda m: setattr(m.rec.rec, "i32", 0), {"rec": {"rec": {}}}, 1),
+        "scalar_depth2_value": ("Rec", lambda m: setattr(m.rec.rec, "i32", 7), {"rec": {"rec": {"i32": 7}}}, 1),
+        "oneof_depth1_default": ("Rec", lambda m: setattr(m.rec, "ostr", ""), {"rec": {"ostr": ""}}, 1),
+        "oneof_depth1_value": ("Rec", lambda m: setattr(m.rec, "ostr", "x"), {"rec": {"ostr": "x"}}, 1),
+        "oneof_msg_depth1_default": ("Scalars", lambda m: setattr(m.f_rec, "orec", c.bp("Rec")()), {"f_rec": {"orec": {}}}, 20),
+        "optional_depth1_default": ("Mixed", lambda m: setattr(m.optionals, "o_int32", 0), {"optionals": {"o_int32": 0}}, 2),
+        "optional_depth1_empty_string": ("Mixed", lambda m: setattr(m.optionals, "o_string", ""), {"optionals": {"o_string": ""}}, 2),
+        "wrapper_depth1_default": ("Mixed", lambda m: setattr(m.wrappers, "w_int32", 0), {"wrappers": {"w_int32": 0}}, 6),
+        "oneof_in_oneofs_depth1_default": ("Mixed", lambda m: setattr(m.oneofs, "a_bool", False), {"oneofs": {"a_bool": False}}, 5),
+        "container_append_depth1": ("Rec", lambda m: m.rec.kids.append(c.bp("Rec")(i32=1)), {"rec": {"kids": [{"i32": 1}]}}, 1),
+        "container_map_depth1": ("Rec", lambda m: m.rec.m.__setitem__("k", c.bp("Rec")(i32=1)), {"rec": {"m": [["k", {"i32": 1}]]}}, 1),
+        "container_scalar_list_depth1": ("Mixed", lambda m: m.repeats.r_int32.append(5), {"repeats": {"r_int32": [5]}}, 3),
+        "top_level_container": ("Repeats", lambda m: m.r_string.append("a"), {"r_string": ["a"]}, None),
+    }
+
     @collecting
-    def lazy_clauses(out, depth, state):
-        Rec = c.bp("Rec")
-        m = Rec()
-        val = 0 if state == "default" else 7
-        if depth == 1:
-            m.rec.i32 = val
-            chain = [m.rec]
-        else:
-            m.rec.rec.i32 = val
-            chain = [m.rec, m.rec.rec]
+    def lazy_clauses(out, name):
+        msg, mutate, want_tree, sub_number = LAZY[name]
+        cls = c.bp(msg)
+        mi = schema.msg(f"ks.{msg}")
+        m = cls()
+        guard("mutate", mutate, m)
         b = guard("bytes", bytes, m)
-        r = c.rf("Rec").FromString(b)
-        emitted = has_record(b, 1)
-        sow = betterproto.serialized_on_wire(chain[0])
-        if emitted != sow:
-            out.append(("lazy_submessage_emitted_iff_serialized_on_wire", f"depth={depth} emitted={emitted} serialized_on_wire(m.rec)={sow} bytes={b.hex()}"))
-        if state == "nondefault":
-            inner = r.rec if depth == 1 else r.rec.rec
-            if inner.i32 != 7:
-                out.append(("lazy_assignment_lost", f"depth={depth} reference reads i32={inner.i32} bytes={b.hex()}"))
+        r = c.rf(msg).FromString(b)
+        got = norm(schema, mi, snap_ref(schema, mi, r))
+        want = norm(schema, mi, want_tree)
+        if got != want:
+            out.append(("lazy_assignment_lost", f"reference reads {got!r} from {b.hex()}, want {want!r}"))
+        if guard("len", len, m) != len(b):
+            out.append(("lazy_len_vs_bytes", f"len={len(m)} bytes={len(b)}"))
+        if sub_number is not None:
+            info = BPInfo.of(cls)
+            sub = getattr(m, info.by_number[sub_number][0])
+            emitted = has_record(b, sub_number)
+            sow = betterproto.serialized_on_wire(sub)
+            if emitted != sow:
+                out.append(("lazy_submessage_emitted_iff_serialized_on_wire", f"emitted={emitted} serialized_on_wire={sow} bytes={b.hex()}"))
 
     def lazy_cases():
-        for depth in (1, 2):
-            for state in ("default", "nondefault"):
-                yield {"lazy_depth": depth, "state": state}
+        for name in LAZY:
+            yield {"lazy": name}
 
     def lazy_ev(case):
-        found = lazy_clauses(case["lazy_depth"], case["state"])
-        return Eval([Failure(cl, f"lazy|{cl}|depth{case['lazy_depth']}|{case['state']}", d) for cl, d in found], nontrivial=True, labels=["lazy"])
+        found = lazy_clauses(case["lazy"])
+        return Eval([Failure(cl, f"lazy|{cl}|{case['lazy']}", d) for cl, d in found], nontrivial=True, labels=["lazy"])
 
     # combinations decoded from reference bytes
     @collecting
